@@ -12,8 +12,11 @@
     The coordinate-descent theorems (second half of the file) are about [cd_sweep], [cd_loop],
     [coordinate_descent] of C11/Model.v - the Gallina terms replayed bit for bit at binary64 / binary32
     against the implementation - instantiated over the reals with [RXe e]: e is the tolerance of
-    approx::abs_diff_eq!/abs_diff_ne! (2^-52 in the implementation, [RX] = [RXe 2^-52]); e = 0 reads the
-    tests `abs_diff_eq!(a, 0)` as `a = 0`.  [band_free e w]: no coefficient lies in the band 0 < |w_j| <= e.
+    approx::abs_diff_eq! in the test that skips columns of tiny norm (2^-52 in the implementation,
+    [RX] = [RXe 2^-52]; e = 0 reads `abs_diff_eq!(norm, 0)` as `norm = 0`).  The residual updates are guarded by
+    the exact test `w != 0` since the repair of finding F52 (/repo 8010f90); [cd_sweep_absdiff] is the sweep
+    with the earlier guard `abs_diff_ne!(w, 0)`, kept for the witness of that finding, and [band_free e w]
+    (no coefficient in the band 0 < |w_j| <= e) is the side condition that sweep needed.
     [objective cols y (repeat l1 p) (repeat l2 p) w] = 1/2 |y - X w|^2 + l1 |w|_1 + l2/2 |w|^2 is n times the
     documented objective for l1 = n*l1_ratio*penalty, l2 = n*(1-l1_ratio)*penalty (y: the centred target).
 
@@ -193,52 +196,66 @@ Theorem cd_update_minimises_coordinate : forall l1r pen nF tmp nj t : R,
   f wn <= f t.
 Proof. exact Descent.cd_update_minimises. Qed.
 
-(** T2.  One sweep `for j in 0..n_features` started with the true residual never increases the objective and
-    returns the true residual of the new coefficients - provided no coefficient before or after the sweep
-    lies in the band (0, e] (columns with |x_j|^2 <= e are skipped: coefficient and residual untouched) ... *)
+(** T2.  For every input and every tolerance e >= 0 of the column-skipping test: one sweep
+    `for j in 0..n_features` started with the true residual never increases the objective and returns the true
+    residual of the new coefficients (columns with |x_j|^2 <= e are skipped: coefficient and residual
+    untouched) ... *)
 Theorem cd_sweep_noninc : forall (cc : bool) (l1r pen nF e : R) (cols : list (list R)) (y w : list R)
                                  (wmax dwmax : R) (w2 r2 : list R) (m : R * R),
   0 <= nF * l1r * pen -> 0 <= nF * (1 - l1r) * pen -> 0 <= e ->
   Forall (fun c => length c = length y) cols -> length w = length cols ->
   cd_sweep R_ops (RXe e) cc l1r pen nF cols (map (fun c => dot R_ops cc c c) cols) w (residual cols y w) wmax dwmax
     = (w2, (r2, m)) ->
-  band_free e w -> band_free e w2 ->
   let p := length cols in
   let P v := objective cols y (repeat (nF * l1r * pen) p) (repeat (nF * (1 - l1r) * pen) p) v in
   length w2 = length cols /\ r2 = residual cols y w2 /\ P w2 <= P w.
 Proof. exact Descent.cd_sweep_noninc. Qed.
 
-(** ... in particular for every input when the tests are read exactly (e = 0) ... *)
-Theorem cd_sweep_noninc_exact : forall (cc : bool) (l1r pen nF : R) (cols : list (list R)) (y w : list R)
-                                       (wmax dwmax : R) (w2 r2 : list R) (m : R * R),
+(** ... in particular with the literal tolerance 2^-52, i.e. for the very instance [RX] whose binary64
+    counterpart is replayed against the implementation ... *)
+Theorem cd_sweep_noninc_literal : forall (cc : bool) (l1r pen nF : R) (cols : list (list R)) (y w : list R)
+                                         (wmax dwmax : R) (w2 r2 : list R) (m : R * R),
   0 <= nF * l1r * pen -> 0 <= nF * (1 - l1r) * pen ->
   Forall (fun c => length c = length y) cols -> length w = length cols ->
-  cd_sweep R_ops (RXe 0) cc l1r pen nF cols (map (fun c => dot R_ops cc c c) cols) w (residual cols y w) wmax dwmax
+  cd_sweep R_ops RX cc l1r pen nF cols (map (fun c => dot R_ops cc c c) cols) w (residual cols y w) wmax dwmax
     = (w2, (r2, m)) ->
   let p := length cols in
   let P v := objective cols y (repeat (nF * l1r * pen) p) (repeat (nF * (1 - l1r) * pen) p) v in
   length w2 = length cols /\ r2 = residual cols y w2 /\ P w2 <= P w.
-Proof. exact Descent.cd_sweep_noninc_exact. Qed.
+Proof. exact Descent.cd_sweep_noninc_literal. Qed.
 
-(** ... while with the literal tolerance 2^-52 the band matters (refuted by a witness: three copies of the
-    column (1), target 2^-52, no penalty - every update returns 2^-52, which abs_diff_ne!(w_j, 0) treats as
-    zero, so the coefficients are stored without the residual being updated; the objective quadruples).
-    Same class as finding F50: an absolute tolerance on a scale-dependent quantity. *)
+(** Finding F52 (repaired in /repo 8010f90).  The sweep with the earlier guard `abs_diff_ne!(w, 0)` was a
+    descent step only when no coefficient before or after the sweep lay in the band (0, e] ... *)
+Theorem cd_sweep_absdiff_noninc : forall (cc : bool) (l1r pen nF e : R) (cols : list (list R)) (y w : list R)
+                                         (wmax dwmax : R) (w2 r2 : list R) (m : R * R),
+  0 <= nF * l1r * pen -> 0 <= nF * (1 - l1r) * pen -> 0 <= e ->
+  Forall (fun c => length c = length y) cols -> length w = length cols ->
+  cd_sweep_absdiff R_ops (RXe e) cc l1r pen nF cols (map (fun c => dot R_ops cc c c) cols) w (residual cols y w) wmax dwmax
+    = (w2, (r2, m)) ->
+  band_free e w -> band_free e w2 ->
+  let p := length cols in
+  let P v := objective cols y (repeat (nF * l1r * pen) p) (repeat (nF * (1 - l1r) * pen) p) v in
+  length w2 = length cols /\ r2 = residual cols y w2 /\ P w2 <= P w.
+Proof. exact Descent.cd_sweep_absdiff_noninc. Qed.
+
+(** ... and with the literal tolerance 2^-52 the band mattered (witness: three copies of the column (1),
+    target 2^-52, no penalty - every update returns 2^-52, which abs_diff_ne!(w_j, 0) treated as zero, so the
+    coefficients were stored without the residual being updated; the objective quadrupled). *)
 Theorem cd_sweep_band_refuted :
   exists (cols : list (list R)) (y w w2 r2 : list R) (m : R * R),
-    cd_sweep R_ops RX false 0 0 1 cols (map (fun c => dot R_ops false c c) cols) w (residual cols y w) 0 0 = (w2, (r2, m))
+    cd_sweep_absdiff R_ops RX false 0 0 1 cols (map (fun c => dot R_ops false c c) cols) w (residual cols y w) 0 0 = (w2, (r2, m))
     /\ r2 <> residual cols y w2
     /\ objective cols y (repeat 0 3) (repeat 0 3) w < objective cols y (repeat 0 3) (repeat 0 3) w2.
 Proof. exact Descent.cd_sweep_band_refuted. Qed.
 
 (** T2.  A sweep that returns the coefficients it was given certifies the first-order conditions of every
     coordinate exactly, hence global optimality (kkt_optimal) - provided skipped columns are zero columns
-    with zero coefficient and no coefficient lies in the band ... *)
+    with zero coefficient (the only side condition left; it is finding F50) ... *)
 Theorem cd_fixed_point_is_kkt : forall (cc : bool) (l1r pen nF e : R) (cols : list (list R)) (y w : list R)
                                        (wmax dwmax : R) (r2 : list R) (m : R * R),
   0 <= nF * l1r * pen -> 0 <= nF * (1 - l1r) * pen -> 0 <= e ->
   Forall (fun c => length c = length y) cols ->
-  Forall2 (fun c t => sq c <= e -> sq c = 0 /\ t = 0) cols w -> band_free e w ->
+  Forall2 (fun c t => sq c <= e -> sq c = 0 /\ t = 0) cols w ->
   cd_sweep R_ops (RXe e) cc l1r pen nF cols (map (fun c => dot R_ops cc c c) cols) w (residual cols y w) wmax dwmax
     = (w, (r2, m)) ->
   let p := length cols in
@@ -270,8 +287,9 @@ Theorem cd_result_zero_columns : forall (cc : bool) (l1r pen nF e : R) (cols : l
   Forall2 (fun c t => sq c <= e -> t = 0) cols w.
 Proof. exact Descent.cd_result_zero_columns. Qed.
 
-(** ... and finding F50 as a statement about the model with the literal tolerance: a column of squared norm
-    2^-54 is skipped, w = 0 is a fixed point of the sweep, yet another coefficient fits the target exactly. *)
+(** ... and finding F50 (known, untouched by the repair of F52) as a statement about the model with the literal
+    tolerance: a column of squared norm 2^-54 is skipped, w = 0 is a fixed point of the sweep, yet another
+    coefficient fits the target exactly. *)
 Theorem cd_fixed_point_eps_refuted :
   exists (cols : list (list R)) (y w w' r2 : list R) (m : R * R),
     cd_sweep R_ops RX false 0 0 1 cols (map (fun c => dot R_ops false c c) cols) w (residual cols y w) 0 0 = (w, (r2, m))
@@ -280,21 +298,35 @@ Theorem cd_fixed_point_eps_refuted :
 Proof. exact Descent.cd_fixed_point_eps_refuted. Qed.
 
 (** T2.  The whole solver `coordinate_descent` (w = 0, r = y, sweeps, stopping rule, duality gap) over the
-    reals with the tests read exactly: the returned point is never worse than w = 0; its reported gap - unless
-    it still is the initial value 1 + tol because the stopping test never fired - bounds the suboptimality of
-    the returned point against every coefficient vector, also when the budget ran out and the gap is that of
-    an earlier iterate; a run that stopped early (n_steps < max_iterations) has gap < tol * |y|^2. *)
-Theorem cd_result_certified : forall (cc : bool) (l1r pen nF : R) (cols : list (list R)) (y : list R) (tol : R)
+    reals, for every input and every tolerance e >= 0 of the column-skipping test: the returned point is never
+    worse than w = 0; its reported gap - unless it still is the initial value 1 + tol because the stopping test
+    never fired - bounds the suboptimality of the returned point against every coefficient vector, also when
+    the budget ran out and the gap is that of an earlier iterate; a run that stopped early
+    (n_steps < max_iterations) has gap < tol * |y|^2 ... *)
+Theorem cd_result_certified : forall (cc : bool) (l1r pen nF e : R) (cols : list (list R)) (y : list R) (tol : R)
                                      (maxit : N) (w : list R) (g : R) (s : N),
-  0 <= nF * l1r * pen -> 0 <= nF * (1 - l1r) * pen ->
+  0 <= nF * l1r * pen -> 0 <= nF * (1 - l1r) * pen -> 0 <= e ->
   Forall (fun c => length c = length y) cols ->
-  coordinate_descent R_ops (RXe 0) cc l1r pen nF cols y tol maxit = (w, (g, s)) ->
+  coordinate_descent R_ops (RXe e) cc l1r pen nF cols y tol maxit = (w, (g, s)) ->
   let p := length cols in
   let P v := objective cols y (repeat (nF * l1r * pen) p) (repeat (nF * (1 - l1r) * pen) p) v in
   length w = p /\ P w <= P (repeat 0 p)
   /\ (g = 1 + tol \/ forall v, length v = p -> P w - P v <= g)
   /\ ((s < maxit)%N -> g < tol * sq y).
 Proof. exact Descent.cd_result_certified. Qed.
+
+(** ... in particular for the literal instance [RX] (tolerance 2^-52). *)
+Theorem cd_result_certified_literal : forall (cc : bool) (l1r pen nF : R) (cols : list (list R)) (y : list R) (tol : R)
+                                             (maxit : N) (w : list R) (g : R) (s : N),
+  0 <= nF * l1r * pen -> 0 <= nF * (1 - l1r) * pen ->
+  Forall (fun c => length c = length y) cols ->
+  coordinate_descent R_ops RX cc l1r pen nF cols y tol maxit = (w, (g, s)) ->
+  let p := length cols in
+  let P v := objective cols y (repeat (nF * l1r * pen) p) (repeat (nF * (1 - l1r) * pen) p) v in
+  length w = p /\ P w <= P (repeat 0 p)
+  /\ (g = 1 + tol \/ forall v, length v = p -> P w - P v <= g)
+  /\ ((s < maxit)%N -> g < tol * sq y).
+Proof. exact Descent.cd_result_certified_literal. Qed.
 
 (* ------------------------------------------------------------------------------------------- *)
 (** * uniqueness of the least-squares solution *)
